@@ -72,6 +72,17 @@ func c07Codec(run *Run, cd *codecDef) {
 		if kind == "valid-stream" && (len(whole.Events) != nfr || whole.Left != 0 || whole.Closed) {
 			run.Fail(cd.Name+":valid-stream-not-extracted", fmt.Sprintf("%s: a stream of %d valid frames delivered in one read produced %d events, %d bytes left, closed=%v", cd.Name, nfr, len(whole.Events), whole.Left, whole.Closed), rep0)
 		}
+		// the frames extracted must be the frames sent (each decoded alone from a private copy is the reference)
+		if kind == "valid-stream" && len(whole.Events) == nfr {
+			prev := 0
+			for k, bd := range bounds {
+				want, ok := frameAlone(cd.Proto, cd.Sum, stream[prev:bd], stream)
+				if ok && whole.Events[k] != want {
+					run.Fail(cd.Name+":extracted-frame-differs-from-sent", fmt.Sprintf("%s: frame %d of a valid stream, as held by the stream layer after the connection went on reading into its read buffer, is not the frame that was sent (it shares memory with the read buffer?)", cd.Name, k), rep0)
+				}
+				prev = bd
+			}
+		}
 		add([][]byte{stream}, whole, rep0)
 		check := func(cuts []int, how string, toCoq bool) {
 			chunks := cutAt(stream, cuts)
